@@ -163,6 +163,14 @@ fn pick_value(ty: &str, nul: bool, pos: &str, g: &mut Gen, i: usize) -> (Val, bo
         }
         "Boolean" => (Val::Bool(g.chance(1, 2)), true),
         "Float" => {
+            if g.chance(1, 12) {
+                // an INTEGER literal on a Float field that no f64 represents: it means the nearest f64, in the mutation
+                // and in the filter alike (below 10^16, where the decimal printing of that f64 is exact)
+                let ints: [i64; 6] = [9007199254740993, 9007199254740995, -9007199254740993, 9007199254740997, 9999999999999999, -9999999999999997];
+                let i = ints[g.below(ints.len())];
+                let f = i as f64;
+                return (Val::Float(f.to_bits(), format!("{}", i), format!("{}", f)), true);
+            }
             let sp = special_floats();
             let f = if g.chance(3, 5) { sp[g.below(sp.len())] } else { random_float(g) };
             (float_val(f, g), true)
